@@ -116,7 +116,10 @@ IOExtras(R, T, GO, line, hdir) ==
   CASE line.kind = "snapshots" ->
          { <<nm("a_rows"), St(line.rowerr = <<>> /\ RowsAreTriples(R.dir, line.rows, Triples(GO)))>> }
     [] line.kind = "interactions" ->
-         { <<nm("a_rows"), St(line.rowerr = <<>> /\ line.rows = GO.stream)>>,
+         \* the events of the stream, in chronological order (the order inside one instant is not fixed by the statement)
+         { <<nm("a_rows"), St(/\ line.rowerr = <<>>
+                              /\ ToSet(line.rows) = ToSet(GO.stream) /\ Len(line.rows) = Len(GO.stream)
+                              /\ \A i \in DOMAIN line.rows : i > 1 => line.rows[i - 1][4] <= line.rows[i][4])>>,
            <<nm("c_same_stream"),
              St(EvSet(R, line.obs.stream) = EvSet(R, GO.stream) /\ Len(line.obs.stream) = Len(GO.stream))>> }
     [] line.kind = "json" ->
